@@ -12,7 +12,6 @@ import (
 	"net"
 	"os"
 	"reflect"
-	"strings"
 	"time"
 
 	"github.com/gotd/td/bin"
@@ -164,11 +163,6 @@ func (m *c16) payload(r *rand.Rand, sender, seq uint32, n int) []byte {
 }
 
 func (m *c16) sig(kind string, ps protoSpec, wrap string, sc *sched) string {
-	if strings.HasPrefix(wrap, "obf2") && sc != nil && sc.eofc {
-		// own signature: the only schedule class where the obfuscated2 stream wrapper
-		// (not the codec) decides the outcome; see the report
-		return "obfuscated2-read-returning-data-with-EOF"
-	}
 	return kind + "|" + ps.name + "|" + wrap
 }
 
